@@ -288,6 +288,34 @@ pub mod sup {
         *v ^ 0x80
     }
 
+    // ---- a field type whose *inherent* methods are named like the trait methods and misbehave: generated code must reach the
+    //      trait impls (`::core::clone::Clone::clone(x)`), never `x.clone()` ----
+    pub struct Inh(pub u8);
+    impl Inh {
+        pub fn clone(&self) -> Inh { Inh(self.0 ^ 0xff) }
+        pub fn clone_from(&mut self, _s: &Inh) { self.0 = 0xee; }
+        pub fn eq(&self, _o: &Inh) -> bool { self.0 == 77 }
+        pub fn ne(&self, _o: &Inh) -> bool { self.0 == 78 }
+        pub fn cmp(&self, _o: &Inh) -> Ordering { Ordering::Greater }
+        pub fn partial_cmp(&self, _o: &Inh) -> Option<Ordering> { None }
+        pub fn hash<HH>(&self, _s: &mut HH) {}
+        pub fn fmt(&self, f: &mut core::fmt::Formatter<'_>) -> core::fmt::Result { f.write_str("WRONG") }
+        pub fn default() -> Inh { Inh(0xdd) }
+    }
+    impl Clone for Inh { fn clone(&self) -> Self { Inh(self.0) } }
+    impl PartialEq for Inh { fn eq(&self, o: &Self) -> bool { self.0 == o.0 } }
+    impl Eq for Inh {}
+    impl PartialOrd for Inh { fn partial_cmp(&self, o: &Self) -> Option<Ordering> { Some(u8::cmp(&self.0, &o.0)) } }
+    impl Ord for Inh { fn cmp(&self, o: &Self) -> Ordering { u8::cmp(&self.0, &o.0) } }
+    impl core::hash::Hash for Inh { fn hash<H: core::hash::Hasher>(&self, h: &mut H) { h.write_u8(self.0) } }
+    impl core::fmt::Debug for Inh { fn fmt(&self, f: &mut core::fmt::Formatter<'_>) -> core::fmt::Result { f.write_str("i") } }
+    impl Default for Inh { fn default() -> Self { Inh(5) } }
+    impl Sym for Inh {
+        fn sym() -> Self {
+            Inh(kani::any())
+        }
+    }
+
     // ---- the same methods behind generic functions: reached only through paths with generic arguments (`g::eq_le::<u8>`) ----
     pub mod g {
         use super::*;
